@@ -40,7 +40,7 @@ theorem C11V2_reachable_structure (ops : List Db.V2.Op) (hapi : ops.all apiOp = 
     (∀ k, ∃ l, walkIds d.pe k = .ok l ∧ l.Nodup ∧ ∀ x, x ∈ l ↔ ∃ r ∈ d.pe, r.id = x ∧ r.key = k) ∧
     (∀ r ∈ d.pl, r.key = 0 ∨ r.key ∈ ids d.pl) ∧
     (∀ x, (absF d).isAncestor x x = false) ∧
-    (∀ e ∈ d.pe, e.key ∈ ids d.pl ∧ e.val ∈ d.tracks) := by
+    (∀ e ∈ d.pe, e.key ∈ ids d.pl ∧ e.val.track ∈ d.tracks ∧ e.val.uuid = 0) := by
   intro d
   have hI := inv_run inv_empty ops hapi
   have cov : ∀ {α : Type} {A : Int → List Int} {t : Table α}, R A t → ∀ k,
@@ -56,7 +56,8 @@ theorem C11V2_reachable_structure (ops : List Db.V2.Op) (hapi : ops.all apiOp = 
       rw [← absF_ids]
       exact hI.pl.wf.parent_live (rowCrate r) (mem_crates_of_row hr) r.key (by simp [rowCrate, parentOpt_of_ne h0])
   · intro e he
-    exact hI.mem.live (core e) (mem_cores.mpr ⟨e, he, rfl⟩)
+    exact ⟨(hI.mem.live (core e) (mem_cores.mpr ⟨e, he, rfl⟩)).1, (hI.mem.live (core e) (mem_cores.mpr ⟨e, he, rfl⟩)).2,
+      hI.mem.own (core e) (mem_cores.mpr ⟨e, he, rfl⟩)⟩
 
 /- Full statement for the chain part (false, see `C11V2_chains_counterexample`):
    ∀ ops, wfChains (run Db.empty ops) = true. -/
@@ -69,7 +70,7 @@ theorem C11V2_reachable_wfChains_partial (ops : List Db.V2.Op) (hok : ops.all ok
 /-- … and fails without that restriction (known finding, findings/C09.json: the schema's delete trigger is
 declared `WHEN OLD.trackId > 0`). -/
 theorem C11V2_chains_counterexample :
-    wfChains (run Db.empty [.peAddBack 3 2 false, .peAddBack 3 3 false, .peAddBack 3 0 false, .peRemove 3 3]) = false := by
+    wfChains (run Db.empty [.peAddBack 3 2 0 false, .peAddBack 3 3 0 false, .peAddBack 3 0 0 false, .peRemove 3 3]) = false := by
   decide
 
 /-! ### non-vacuity: a history with a deep forest, re-parenting, contents and removals -/
